@@ -10,10 +10,18 @@
 (*                                                                         *)
 (* Each thread performs Rounds "with lock:" blocks.  At most one critical  *)
 (* section (chosen nondeterministically in Init: `breaker`) raises.        *)
+(*                                                                         *)
+(* reset(): one more caller (RX, not a member of Threads) calls reset() up *)
+(* to MaxResets times at any moment.  reset() is refused while the deque   *)
+(* is non-empty - which is what keeps "every current acquirer of a broken  *)
+(* lock gets an ordered-lock error" true: an acquirer that was woken by    *)
+(* the break and has not yet re-read _is_broken still has its entry in the *)
+(* deque (and the entries of such acquirers are never removed).            *)
 (***************************************************************************)
 EXTENDS Naturals, Sequences, FiniteSets, SequencesExt
 
-CONSTANTS Threads, Rounds, NoCall, None
+CONSTANTS Threads, Rounds, NoCall, None, RX, MaxResets,
+          ResetDropsStale   \* probe (FALSE = the code): reset() of a broken lock first drops the deque's entries
 
 Calls == Threads \X (1..Rounds)
 
@@ -32,9 +40,15 @@ VARIABLES
   entered,    \* order in which calls entered the critical section
   outcome,    \* outcome[c] \in {"none","ok","own_exception","lock_error"}
   got,        \* got[c] : value returned by increment() (0 = none)
-  brokenAt    \* Len(arrival) when the lock broke, or 0 if not broken (NB arrival of breaker >= 1)
+  brokenAt,   \* Len(arrival) when the lock broke, or 0 if not broken (NB arrival of breaker >= 1)
+  doomed,     \* the calls that were queued behind the holder when the lock broke ("current acquirers")
+  \* ---- reset() caller ------------------------------------------------------
+  rpc,        \* "idle" | "X2" | "X3"
+  resetCalls, \* number of reset() calls started
+  resetOk     \* number of reset() calls that succeeded
 
-vars == <<inner, waiters, evset, broken, pc, rnd, idx, counter, breaker, arrival, entered, outcome, got, brokenAt>>
+rvars == <<rpc, resetCalls, resetOk>>
+vars == <<inner, waiters, evset, broken, pc, rnd, idx, counter, breaker, arrival, entered, outcome, got, brokenAt, doomed, rvars>>
 
 cur(t) == <<t, rnd[t]>>
 
@@ -53,6 +67,10 @@ Init ==
   /\ outcome = [c \in Calls |-> "none"]
   /\ got = [c \in Calls |-> 0]
   /\ brokenAt = 0
+  /\ doomed = {}
+  /\ rpc = "idle"
+  /\ resetCalls = 0
+  /\ resetOk = 0
 
 \* finish the current round of t with outcome o
 Finish(t, o) ==
@@ -67,7 +85,7 @@ Finish(t, o) ==
 \* acquire(): "with self._lock:"
 A1(t) == /\ pc[t] = "A1" /\ inner = None
          /\ inner' = t /\ pc' = [pc EXCEPT ![t] = "A2"]
-         /\ UNCHANGED <<waiters, evset, broken, rnd, idx, counter, breaker, arrival, entered, outcome, got, brokenAt>>
+         /\ UNCHANGED <<waiters, evset, broken, rnd, idx, counter, breaker, arrival, entered, outcome, got, brokenAt, rvars, doomed>>
 
 \* under _lock: broken? raise : append own event
 A2(t) == /\ pc[t] = "A2"
@@ -77,29 +95,29 @@ A2(t) == /\ pc[t] = "A2"
               ELSE /\ waiters' = Append(waiters, cur(t))
                    /\ arrival' = Append(arrival, cur(t))
                    /\ pc' = [pc EXCEPT ![t] = IF Len(waiters) = 0 THEN "A2s" ELSE "A3"]
-         /\ UNCHANGED <<inner, evset, broken, rnd, idx, counter, breaker, entered, outcome, got, brokenAt>>
+         /\ UNCHANGED <<inner, evset, broken, rnd, idx, counter, breaker, entered, outcome, got, brokenAt, rvars, doomed>>
 
 \* first waiter: event.set()
 A2s(t) == /\ pc[t] = "A2s"
           /\ evset' = evset \cup {cur(t)}
           /\ pc' = [pc EXCEPT ![t] = "A3"]
-          /\ UNCHANGED <<inner, waiters, broken, rnd, idx, counter, breaker, arrival, entered, outcome, got, brokenAt>>
+          /\ UNCHANGED <<inner, waiters, broken, rnd, idx, counter, breaker, arrival, entered, outcome, got, brokenAt, rvars, doomed>>
 
 \* leave "with self._lock"
 A3(t) == /\ pc[t] = "A3"
          /\ inner' = None /\ pc' = [pc EXCEPT ![t] = "A4"]
-         /\ UNCHANGED <<waiters, evset, broken, rnd, idx, counter, breaker, arrival, entered, outcome, got, brokenAt>>
+         /\ UNCHANGED <<waiters, evset, broken, rnd, idx, counter, breaker, arrival, entered, outcome, got, brokenAt, rvars, doomed>>
 
 \* leave "with self._lock" through the raise of OrderedLockError
 A3x(t) == /\ pc[t] = "A3x"
           /\ inner' = None
           /\ Finish(t, "lock_error")
-          /\ UNCHANGED <<waiters, evset, broken, idx, counter, breaker, arrival, entered, got, brokenAt>>
+          /\ UNCHANGED <<waiters, evset, broken, idx, counter, breaker, arrival, entered, got, brokenAt, rvars, doomed>>
 
 \* event.wait() returns
 A4(t) == /\ pc[t] = "A4" /\ cur(t) \in evset
          /\ pc' = [pc EXCEPT ![t] = "A5"]
-         /\ UNCHANGED <<inner, waiters, evset, broken, rnd, idx, counter, breaker, arrival, entered, outcome, got, brokenAt>>
+         /\ UNCHANGED <<inner, waiters, evset, broken, rnd, idx, counter, breaker, arrival, entered, outcome, got, brokenAt, rvars, doomed>>
 
 \* the unlocked read of _is_broken
 A5(t) == /\ pc[t] = "A5"
@@ -109,7 +127,7 @@ A5(t) == /\ pc[t] = "A5"
               ELSE /\ pc' = [pc EXCEPT ![t] = "CS"]
                    /\ entered' = Append(entered, cur(t))
                    /\ UNCHANGED <<rnd, outcome>>
-         /\ UNCHANGED <<inner, waiters, evset, broken, idx, counter, breaker, arrival, got, brokenAt>>
+         /\ UNCHANGED <<inner, waiters, evset, broken, idx, counter, breaker, arrival, got, brokenAt, rvars, doomed>>
 
 \* critical section: OrderedCounter increments, or the body raises
 CS(t) == /\ pc[t] = "CS"
@@ -119,20 +137,21 @@ CS(t) == /\ pc[t] = "CS"
               ELSE /\ counter' = counter + 1
                    /\ got' = [got EXCEPT ![cur(t)] = counter + 1]
                    /\ pc' = [pc EXCEPT ![t] = "R1"]
-         /\ UNCHANGED <<inner, waiters, evset, broken, rnd, idx, breaker, arrival, entered, outcome, brokenAt>>
+         /\ UNCHANGED <<inner, waiters, evset, broken, rnd, idx, breaker, arrival, entered, outcome, brokenAt, rvars, doomed>>
 
 \* __exit__ with an exception: "with self._lock:"
 E1(t) == /\ pc[t] = "E1" /\ inner = None
          /\ inner' = t /\ pc' = [pc EXCEPT ![t] = "E2"]
-         /\ UNCHANGED <<waiters, evset, broken, rnd, idx, counter, breaker, arrival, entered, outcome, got, brokenAt>>
+         /\ UNCHANGED <<waiters, evset, broken, rnd, idx, counter, breaker, arrival, entered, outcome, got, brokenAt, rvars, doomed>>
 
 \* self._is_broken = True
 E2(t) == /\ pc[t] = "E2"
          /\ broken' = TRUE
          /\ brokenAt' = Len(arrival)
+         /\ doomed' = {waiters[i] : i \in 2..Len(waiters)}
          /\ idx' = [idx EXCEPT ![t] = 1]
          /\ pc' = [pc EXCEPT ![t] = "E2s"]
-         /\ UNCHANGED <<inner, waiters, evset, rnd, counter, breaker, arrival, entered, outcome, got>>
+         /\ UNCHANGED <<inner, waiters, evset, rnd, counter, breaker, arrival, entered, outcome, got, rvars>>
 
 \* for waiter in self._waiters: waiter.set()      (one step per element)
 E2s(t) == /\ pc[t] = "E2s"
@@ -142,50 +161,74 @@ E2s(t) == /\ pc[t] = "E2s"
                     /\ pc' = pc
                ELSE /\ pc' = [pc EXCEPT ![t] = "E3"]
                     /\ UNCHANGED <<evset, idx>>
-          /\ UNCHANGED <<inner, waiters, broken, rnd, counter, breaker, arrival, entered, outcome, got, brokenAt>>
+          /\ UNCHANGED <<inner, waiters, broken, rnd, counter, breaker, arrival, entered, outcome, got, brokenAt, rvars, doomed>>
 
 E3(t) == /\ pc[t] = "E3"
          /\ inner' = None /\ pc' = [pc EXCEPT ![t] = "R1"]
-         /\ UNCHANGED <<waiters, evset, broken, rnd, idx, counter, breaker, arrival, entered, outcome, got, brokenAt>>
+         /\ UNCHANGED <<waiters, evset, broken, rnd, idx, counter, breaker, arrival, entered, outcome, got, brokenAt, rvars, doomed>>
 
 \* release(): "with self._lock:"
 R1(t) == /\ pc[t] = "R1" /\ inner = None
          /\ inner' = t /\ pc' = [pc EXCEPT ![t] = "R2"]
-         /\ UNCHANGED <<waiters, evset, broken, rnd, idx, counter, breaker, arrival, entered, outcome, got, brokenAt>>
+         /\ UNCHANGED <<waiters, evset, broken, rnd, idx, counter, breaker, arrival, entered, outcome, got, brokenAt, rvars, doomed>>
 
 \* popleft; wake successor unless broken
 R2(t) == /\ pc[t] = "R2"
          /\ Len(waiters) > 0
          /\ waiters' = Tail(waiters)
          /\ pc' = [pc EXCEPT ![t] = IF Len(waiters) > 1 /\ ~broken THEN "R2s" ELSE "R3"]
-         /\ UNCHANGED <<inner, evset, broken, rnd, idx, counter, breaker, arrival, entered, outcome, got, brokenAt>>
+         /\ UNCHANGED <<inner, evset, broken, rnd, idx, counter, breaker, arrival, entered, outcome, got, brokenAt, rvars, doomed>>
 
 R2s(t) == /\ pc[t] = "R2s"
           /\ evset' = evset \cup {Head(waiters)}
           /\ pc' = [pc EXCEPT ![t] = "R3"]
-          /\ UNCHANGED <<inner, waiters, broken, rnd, idx, counter, breaker, arrival, entered, outcome, got, brokenAt>>
+          /\ UNCHANGED <<inner, waiters, broken, rnd, idx, counter, breaker, arrival, entered, outcome, got, brokenAt, rvars, doomed>>
 
 R3(t) == /\ pc[t] = "R3"
          /\ inner' = None
          /\ Finish(t, IF cur(t) = breaker THEN "own_exception" ELSE "ok")
-         /\ UNCHANGED <<waiters, evset, broken, idx, counter, breaker, arrival, entered, got, brokenAt>>
+         /\ UNCHANGED <<waiters, evset, broken, idx, counter, breaker, arrival, entered, got, brokenAt, rvars, doomed>>
+
+--------------------------------------------------------------------------
+\* reset(): "with self._lock:"
+X1 == /\ rpc = "idle" /\ resetCalls < MaxResets /\ inner = None
+      /\ inner' = RX /\ rpc' = "X2" /\ resetCalls' = resetCalls + 1
+      /\ UNCHANGED <<waiters, evset, broken, pc, rnd, idx, counter, breaker, arrival, entered, outcome, got, brokenAt, doomed, resetOk>>
+
+\* refused while the deque is non-empty; otherwise clear _is_broken
+X2 == /\ rpc = "X2"
+      /\ LET q == IF ResetDropsStale /\ broken THEN <<>> ELSE waiters IN
+         /\ waiters' = q
+         /\ IF Len(q) > 0
+              THEN UNCHANGED <<broken, resetOk>>
+              ELSE broken' = FALSE /\ resetOk' = resetOk + 1
+      /\ rpc' = "X3"
+      /\ UNCHANGED <<inner, evset, pc, rnd, idx, counter, breaker, arrival, entered, outcome, got, brokenAt, doomed, resetCalls>>
+
+X3 == /\ rpc = "X3"
+      /\ inner' = None /\ rpc' = "idle"
+      /\ UNCHANGED <<waiters, evset, broken, pc, rnd, idx, counter, breaker, arrival, entered, outcome, got, brokenAt, doomed, resetCalls, resetOk>>
+
+RStep == X1 \/ X2 \/ X3
 
 Step(t) == \/ A1(t) \/ A2(t) \/ A2s(t) \/ A3(t) \/ A3x(t) \/ A4(t) \/ A5(t) \/ CS(t)
            \/ E1(t) \/ E2(t) \/ E2s(t) \/ E3(t) \/ R1(t) \/ R2(t) \/ R2s(t) \/ R3(t)
 
 AllDone == \A t \in Threads : pc[t] = "Done"
 
-Next == (\E t \in Threads : Step(t)) \/ (AllDone /\ UNCHANGED vars)
+Next == (\E t \in Threads : Step(t)) \/ RStep \/ (AllDone /\ UNCHANGED vars)
 
 Spec == Init /\ [][Next]_vars
-FairSpec == Spec /\ \A t \in Threads : WF_vars(Step(t))
+FairSpec == Spec /\ (\A t \in Threads : WF_vars(Step(t))) /\ WF_vars(X2 \/ X3)
 
 --------------------------------------------------------------------------
 \* Properties (C19)
 
 Holding(t) == pc[t] \in {"CS", "E1", "E2", "E2s", "E3", "R1", "R2"}
 
-TypeOK == /\ inner \in Threads \cup {None}
+TypeOK == /\ inner \in Threads \cup {None, RX}
+          /\ rpc \in {"idle", "X2", "X3"}
+          /\ doomed \subseteq Calls
           /\ broken \in BOOLEAN
           /\ evset \subseteq Calls
           /\ \A c \in Calls : outcome[c] \in {"none", "ok", "own_exception", "lock_error"}
@@ -193,7 +236,7 @@ TypeOK == /\ inner \in Threads \cup {None}
 MutualExclusion == Cardinality({t \in Threads : Holding(t)}) <= 1
 
 \* ownership is granted strictly in arrival order: the calls that entered are a prefix of the arrivals
-FIFO == IsPrefix(entered, arrival)
+FIFO == IsPrefix(entered, SelectSeq(arrival, LAMBDA c : c \notin doomed))
 
 \* the holder is always the head of the deque
 HolderIsHead == \A t \in Threads : Holding(t) => (Len(waiters) > 0 /\ Head(waiters) = cur(t))
@@ -215,7 +258,9 @@ BreakSemantics ==
   \* a call that finished "ok" arrived before the break
   /\ \A c \in Calls : outcome[c] = "ok" => (c \in Range(arrival) /\ (broken => PosInArrival(c) <= brokenAt))
   \* a call that got lock_error did not run the critical section
-  /\ \A c \in Calls : outcome[c] = "lock_error" => (broken /\ got[c] = 0)
+  /\ \A c \in Calls : outcome[c] = "lock_error" => ((broken \/ resetOk > 0) /\ got[c] = 0)
+  \* a call queued behind the holder when the lock broke never gets the lock - reset() or not
+  /\ \A c \in doomed : c \notin Range(entered) /\ outcome[c] \in {"none", "lock_error"}
 
 NoEntryAfterBreak == [][broken => entered' = entered]_vars
 
@@ -223,9 +268,13 @@ NoEntryAfterBreak == [][broken => entered' = entered]_vars
 FinalOutcomes == AllDone =>
   /\ \A c \in Calls : outcome[c] # "none"
   /\ breaker = NoCall => \A c \in Calls : outcome[c] = "ok"
-  /\ (breaker # NoCall /\ outcome[breaker] = "own_exception") =>
+  /\ \A c \in doomed : outcome[c] = "lock_error"
+  /\ (breaker # NoCall /\ outcome[breaker] = "own_exception" /\ resetOk = 0) =>
         \A c \in Calls : c # breaker =>
             outcome[c] = (IF c \in Range(arrival) /\ PosInArrival(c) < PosInArrival(breaker) THEN "ok" ELSE "lock_error")
+
+\* reset() succeeds only on a lock nobody is queued on or holding
+ResetOnlyWhenIdle == [][resetOk' > resetOk => (waiters = <<>> /\ \A t \in Threads : ~Holding(t) /\ pc[t] \notin {"A4", "A5"})]_vars
 
 \* liveness: no lost wakeup, nobody blocks forever (also after a break)
 Termination == <>AllDone
